@@ -8,7 +8,7 @@
    changes, and the call succeeds whenever the annotation exists. *)
 From Stam Require Import Base.Tac Model.Offset Model.Store Model.StoreObs Spec.StoreSpec
      Proofs.StoreScan Proofs.StoreInv Proofs.StoreDataDef Proofs.StoreRemove Proofs.StoreRemove2
-     Proofs.StoreRemove3 Proofs.StoreData Proofs.StoreExact Proofs.StoreExactData Proofs.StoreSets Proofs.StoreExactKey Proofs.StoreSuccess.
+     Proofs.StoreRemove3 Proofs.StoreData Proofs.StoreExact Proofs.StoreExactData Proofs.StoreSets Proofs.StoreExactKey Proofs.StoreSuccess Proofs.StoreFrame.
 
 Theorem C02_nothing_dangles : forall ops,
   let s := run ops in ann_refs_ok s /\ item_refs_ok s /\ data_ok s.
@@ -123,6 +123,33 @@ Proof.
   intros ops s. destruct (reachable_Good ops) as (HI & Hwf & _).
   split; [intros r h; apply (rm_annotation_ok noex s r h HI Hwf)|].
   split; [exact (rm_resource_ok s)|]. split; [exact (rm_dataset_ok s)|]. split; [exact (rm_data_ok s)|exact (rm_key_ok s)].
+Qed.
+
+(* "touches nothing else" (resources and datasets; the annotations are covered by the exactness
+   theorems): in ANY store, remove_annotation leaves resources and datasets alone; remove_resource
+   empties that one resource slot; remove_dataset that one dataset slot; remove_data takes exactly
+   that item out of its dataset (slot, id, key_data_map entry); remove_key empties exactly the key
+   slot and the slots of the data items of the key, all other datasets and the resources untouched *)
+Theorem C02_touches_nothing_else : forall s,
+  (forall r, let s' := fst (rm_annotation s r) in sets s' = sets s /\ ress s' = ress s /\ sidx s' = sidx s /\ ridx s' = ridx s)
+  /\ (forall r h, ref_res s r = Some h -> let s' := fst (rm_resource s r) in
+         sets s' = sets s /\ sidx s' = sidx s /\ ress s' = set_slot (ress s) h None)
+  /\ (forall r h, ref_set s r = Some h -> let s' := fst (rm_dataset s r) in
+         ress s' = ress s /\ ridx s' = ridx s /\ sets s' = set_slot (sets s) h None)
+  /\ (forall d x strict ds it, get_set s d = Some ds -> slot (d_data ds) x = Some it ->
+         let s' := fst (remove_data_h s d x strict) in
+         ress s' = ress s /\ sidx s' = sidx s /\ ridx s' = ridx s /\ sets s' = set_slot (sets s) d (Some (ds_without ds x it)))
+  /\ (forall dr kr strict d ds k tok, to_handle (sidx s) dr = Some d -> get_set s d = Some ds ->
+         to_handle (d_kidx ds) kr = Some k -> slot (d_keys ds) k = Some tok ->
+         let s' := fst (rm_key s dr kr strict) in
+         ress s' = ress s /\ ridx s' = ridx s /\ sidx s' = sidx s
+         /\ (forall d0, d0 <> d -> get_set s' d0 = get_set s d0)
+         /\ exists ds', get_set s' d = Some ds' /\ d_id ds' = d_id ds
+            /\ (forall k0, slot (d_keys ds') k0 = if Nat.eqb k0 k then None else slot (d_keys ds) k0)
+            /\ (forall x, slot (d_data ds') x = if existsb (Nat.eqb x) (rget (d_k2x ds) k) then None else slot (d_data ds) x)).
+Proof.
+  intros s. split; [exact (rm_annotation_frame s)|]. split; [exact (rm_resource_frame s)|].
+  split; [exact (rm_dataset_frame s)|]. split; [exact (remove_data_h_frame s)|exact (rm_key_frame s)].
 Qed.
 
 (* the closure of the specification is reachability along "targets an annotation" edges *)
